@@ -66,7 +66,7 @@ func genCase(prop string) func(t *rapid.T) Case {
 			case "setctx":
 				op.Ctx = rapid.SampledFrom([]string{"new", "new", "same", "nil"}).Draw(t, "ctx")
 			case "finish":
-				op.Out = rapid.SampledFrom([]string{"val", "val", "val", "valnorel", "valsame", "err", "errrel", "errcanceled"}).Draw(t, "out")
+				op.Out = rapid.SampledFrom([]string{"val", "val", "val", "valnorel", "valsame", "valzero", "err", "errrel", "errcanceled"}).Draw(t, "out")
 				op.Pick = rapid.IntRange(0, 3).Draw(t, "pick")
 			case "finishcb":
 				op.Out = rapid.SampledFrom([]string{"nil", "nil", "err"}).Draw(t, "out")
@@ -130,6 +130,7 @@ type accInv struct {
 	returned          bool
 	result            error
 	invalidatedDuring bool
+	cancelledBefore   bool // the caller's context was cancelled before the callback was told to return
 }
 
 type consumer struct {
@@ -249,7 +250,7 @@ func body(c *sched.Ctl, cs Case, v *ev.Verdict) {
 	restartsWhileReturning := 0
 	twoRestarts := false
 	invalBetweenLookAndReturn, invalWhileHeld := false, false
-	repeatedValue, sentinelError := false, false
+	repeatedValue, sentinelError, zeroValue := false, false, false
 	rootCancelled := false
 	rootDead := map[int]bool{}
 	invOps := map[string]*sched.Op{}
@@ -297,6 +298,11 @@ func body(c *sched.Ctl, cs Case, v *ev.Verdict) {
 			vr.id = nextVal
 			vr.hasRel = true
 			repeatedValue = true
+		case "valzero":
+			// the resolver succeeds with the zero value of T (and a release function)
+			vr.id = 0
+			vr.hasRel = true
+			zeroValue = true
 		case "err", "errrel":
 			vr.err = fmt.Errorf("resolve-error-%d", ci.id)
 			vr.hasRel = out == "errrel"
@@ -329,7 +335,7 @@ func body(c *sched.Ctl, cs Case, v *ev.Verdict) {
 				}
 				for _, h := range hrefs {
 					if vr.stored && h.m.live && len(h.log) > 0 {
-						if last := h.log[len(h.log)-1]; last.resolved && last.val == vr.id && last.err == vr.err && vr.id != 0 {
+						if last := h.log[len(h.log)-1]; last.resolved && last.val == vr.id && last.err == vr.err && vr.err == nil {
 							fail("C08", "refcount:released-but-not-told", "the release function of value %d ran although reference #%d was last told (resolved=true, %d)", vr.id, h.m.id, last.val)
 						}
 					}
@@ -860,6 +866,9 @@ func body(c *sched.Ctl, cs Case, v *ev.Verdict) {
 							last = iv
 						}
 					}
+					if last != nil && last.cancelledBefore && err != context.Canceled {
+						fail("C10", "refcount:access-cancel-swallowed", "Access #%d: the caller's context was cancelled while the callback was running, yet Access returned %v instead of context.Canceled", cn.id, err)
+					}
 					switch {
 					case err == context.Canceled && cn.cancelled:
 					case last != nil && err == last.result && (err == nil || strings.HasPrefix(err.Error(), "access-cb-error")):
@@ -936,6 +945,7 @@ func body(c *sched.Ctl, cs Case, v *ev.Verdict) {
 				return false
 			}
 			iv := el[op.Pick%len(el)]
+			iv.cancelledBefore = iv.cons.cancelled
 			iv.finished = true
 			hm.Unlock()
 			iv.release <- op.Out
@@ -1097,6 +1107,9 @@ func body(c *sched.Ctl, cs Case, v *ev.Verdict) {
 	}
 	if rootCancelled {
 		v.Class("root-context-cancelled-from-outside")
+	}
+	if zeroValue {
+		v.Class("resolver-returned-the-zero-value")
 	}
 	if repeatedValue {
 		v.Class("resolver-returned-an-equal-value-again")
